@@ -10,6 +10,7 @@ ENG = {
     "poolfuzz": {"name": "poolfuzz", "sources": ["poolfuzz.c"]},
     "rngdet": {"name": "rngdet", "sources": ["rngdet.c"]},
     "rngsamp": {"name": "rngsamp", "sources": ["rngsamp.c"]},
+    "simfuzz": {"name": "simfuzz", "sources": ["simfuzz.c"], "extra_cflags": "-Wno-format-truncation"},
     "expcheck": {"name": "expcheck", "sources": ["expcheck.c"]},
     "evfuzz": {"name": "evfuzz", "sources": ["evfuzz.c"]},
     "corofuzz": {"name": "corofuzz", "sources": ["corofuzz.c", "probe.S"]},
@@ -228,6 +229,128 @@ PROPS["C18"] = {
                     "histogram bar characters: '#'=1, '='=0.75, '-'=0.25 for the proportionality check (tolerance one character)"],
 }
 
+
+# ------------------------------------------------------------------ simfuzz-based properties
+_SF_ASSUME = ["scripts obey the documented preconditions listed in DESIGN.md appendix A (validity decided from return codes and public queries only)",
+              "one case is capped at 50000 events; reaching the cap without a stuck clock is inconclusive",
+              "violation keys of other properties' monitors seen in a run are reported by those properties' checks"]
+_SF_RULE = ("one case = a generated world (0-2 resources, pools cap 1-8, buffers cap {1,3,7,unlimited,2^64-3}, object/priority queues cap "
+            "{1,2,5,unlimited}, conditions observing every guard, 2-12 processes or 9-40 in wide worlds, 0-20 plain events, start time in "
+            "{0,-100,1e12}) whose processes run random scripts over the whole API with durations from {0,0,0.5,1,1,2,3.25} and priorities from "
+            "{-1,0,0,0,1,5,INT64_MIN,INT64_MAX} (ties are the norm), a timeout timer armed before a third of the blocking calls, follow-up "
+            "holds after non-success returns; the harness drives cmb_event_execute_next() itself and runs the monitors after every event and "
+            "at every clock advance / exhaustion; distinct = fingerprint of world shape + sequence of (call kind, object); non-trivial = at "
+            "least one blocking call ended by a cause other than its own completion. ")
+_PROFILE = {"waits": 0, "mutex": 1, "queueing": 2, "pool": 3, "wakeup": 4, "lifecycle": 5, "buffer": 6, "queues": 7, "condition": 8, "recording": 9, "growth": 10, "mixed": 11}
+
+
+def _sf(pid, main, extra, headline, minobs, rule_tail, quick=4000, thorough=300000):
+    jobs = [J(f"sf-{main}", "simfuzz", "rel", _PROFILE[main], quick, thorough, timeout=60)]
+    for e in extra:
+        jobs.append(J(f"sf-{e}", "simfuzz", "rel", _PROFILE[e], quick // 4, thorough // 6, timeout=60))
+    jobs.append(J(f"sf-{main}-asan", "simfuzz", "asan", _PROFILE[main], quick // 8, thorough // 20, timeout=120))
+    PROPS[pid] = {"engines": ENG, "jobs": jobs, "rule": _SF_RULE + rule_tail, "headline": headline,
+                  "min_observed": {"quick": minobs}, "assumptions": _SF_ASSUME, "key_prefixes": [pid + "/"]}
+
+
+_sf("C04", "waits", ["mixed", "lifecycle"],
+    ["holds_checked", "followup_holds_checked", "c04_pending_event_audits", "ret_hold_by_interrupt", "ret_hold_by_timer", "ret_wait_process_by_timer",
+     "ret_wait_event_by_timer", "ret_resource_acquire_by_timer", "ret_yield_by_resume", "coincidence_timer_with_other_cause",
+     "coincidence_interrupt_with_other_cause", "c04_interrupts_never_delivered", "instant_boundaries_checked", "exhaustions_checked"],
+    {"holds_checked": 5000, "followup_holds_checked": 1000, "c04_pending_event_audits": 10000, "coincidence_timer_with_other_cause": 50},
+    "C04 oracle: cause ledger - every non-success return must consume exactly one live (target, value, time) entry; SUCCESS must coincide "
+    "with the call's own completion (hold: clock == call time + d bitwise); at every end of instant each process's pending events must equal "
+    "its armed timers, nothing overdue, nobody still waiting for something that has happened.")
+_sf("C05", "mutex", ["mixed"],
+    ["c05_acquisitions", "c05_acquisitions_after_waiting", "c05_preemptions", "c05_query_rounds", "c09_ends_while_holding", "max_waiting_list_length"],
+    {"c05_acquisitions": 10000, "c05_acquisitions_after_waiting": 1000, "c05_preemptions": 100, "c09_ends_while_holding": 100},
+    "C05 oracle: shadow holder per resource from return codes only (set on SUCCESS, cleared on release / PREEMPTED / end); a second SUCCESS "
+    "while set is a violation unless it is a preemption by an equal-or-higher priority caller; holder/in_use/available/held_by_process "
+    "compared with the shadow after every event.")
+_sf("C06", "queueing", ["mixed", "condition"],
+    ["c06_grants_judged", "c06_grants_with_other_candidates", "c06_grants_past_longer_waiting_lower_priority", "c06_grants_not_judged_priority_changed",
+     "op_priority_set_on_blocked_process", "c06_condition_wakeups_ordered", "max_waiting_list_length", "waiting_list_beyond_initial_capacity"],
+    {"c06_grants_judged": 5000, "c06_grants_with_other_candidates": 1000, "c06_grants_past_longer_waiting_lower_priority": 100, "op_priority_set_on_blocked_process": 200},
+    "C06 oracle: waiting lists snapshotted between events; an entry that leaves while its process stays blocked is a grant and no entry that "
+    "was in the list before the event and remains may outrank it (priority desc, entry time asc; exact ties open); list keys must follow "
+    "priority_set; processes woken by one condition signal must resume in rank order.")
+_sf("C07", "pool", ["mixed"],
+    ["c07_acquire_success", "c07_acquire_success_after_waiting", "c07_rollbacks_with_prior_holding", "c07_rollbacks_without_prior_holding",
+     "c07_preemption_victims", "c07_victims_in_multistep_acquire", "c07_partial_fulfilments_seen", "c07_acquire_preempted", "c07_conservation_rounds"],
+    {"c07_acquire_success": 5000, "c07_rollbacks_with_prior_holding": 50, "c07_rollbacks_without_prior_holding": 100, "c07_preemption_victims": 200, "c07_partial_fulfilments_seen": 500},
+    "C07 oracle: shadow holdings per (pool, process) from return codes; in_use == sum of held_by_process <= capacity after every event; "
+    "units that leave a process that did not run are a preemption and need a strictly higher-priority preempt call in that event and a "
+    "PREEMPTED delivery in that instant.")
+_sf("C08", "wakeup", ["mixed", "queues", "pool"],
+    ["c08_nonempty_lists_examined", "instant_boundaries_checked", "exhaustions_checked", "ret_resource_acquire_by_timer", "ret_pool_acquire_by_timer",
+     "ret_buffer_get_by_timer", "ret_objectqueue_get_by_timer", "ret_priorityqueue_put_by_timer", "ret_resource_acquire_by_interrupt", "c12_objects_cancelled"],
+    {"c08_nonempty_lists_examined": 5000, "ret_resource_acquire_by_timer": 100, "ret_pool_acquire_by_timer": 100, "ret_buffer_get_by_timer": 50},
+    "C08 oracle: at every clock advance and at exhaustion no resource/pool/buffer/queue waiting list may have a head whose demand (evaluated "
+    "from public queries) is satisfied, and no process taken off a list may still be neither resumed nor re-queued.")
+_sf("C09", "lifecycle", ["mixed"],
+    ["c09_ended_processes_checked", "c09_waiters_at_end", "c09_waiters_notified_success", "c09_waiters_notified_stopped", "c09_ends_while_holding",
+     "c09_ends_with_timers_armed", "c09_restarts_checked", "op_stop_self", "op_stop_running", "op_restart"],
+    {"c09_ended_processes_checked": 10000, "c09_waiters_notified_success": 200, "c09_waiters_notified_stopped": 200, "c09_restarts_checked": 200, "op_stop_self": 200},
+    "C09 oracle: end-of-life record per process (route, value, instant); every open wait_process caller must return in that instant with "
+    "SUCCESS / STOPPED; the ended process must hold nothing, sit in no waiting list, have no pending event, report its exit value, never "
+    "execute another script step; a restarted process must begin clean.")
+_sf("C11", "buffer", ["mixed"],
+    ["c11_put_success", "c11_get_success", "c11_partial_transfers_interrupted", "c11_transfers_interrupted_empty", "c11_amounts_near_2_64"],
+    {"c11_put_success": 5000, "c11_partial_transfers_interrupted": 200, "c11_amounts_near_2_64": 50},
+    "C11 oracle: the level is sampled at every call, return and event boundary and each change attributed to the put/get of the process "
+    "running then; reported amounts must equal the attributed change, level == puts - gets (128-bit), 0 <= level <= capacity.")
+_sf("C12", "queues", ["mixed"],
+    ["c12_objects_put", "c12_objects_delivered", "c12_objects_cancelled", "c12_blocked_puts_completed", "c12_blocked_gets_completed",
+     "c12_priority_ties_at_delivery", "c12_position_queries", "c12_reprioritisations"],
+    {"c12_objects_delivered": 5000, "c12_blocked_puts_completed": 200, "c12_blocked_gets_completed": 200, "c12_priority_ties_at_delivery": 200},
+    "C12 oracle: sequential models (FIFO; priority desc then put order) advanced at each completed put/get/cancel/reprioritise; every "
+    "delivery must be the model's next object, failed gets deliver nothing, length/space/position agree with the model.")
+_sf("C13", "condition", ["mixed"],
+    ["c13_explicit_signals", "c13_waiters_evaluated", "c13_signals_head_false_later_true", "c13_satisfied_waiters_woken", "c13_observed_predicates_audited",
+     "c13_wakeups_predicate_true", "c13_wakeups_spurious_allowed", "c13_cancels", "c13_removes"],
+    {"c13_explicit_signals": 3000, "c13_signals_head_false_later_true": 100, "c13_observed_predicates_audited": 1000, "c13_cancels": 50},
+    "C13 oracle: predicates are pure functions of harness flags and public object state; at each explicit signal the expected wake set is "
+    "computed and must have left the wait by the end of the instant; a SUCCESS wake-up needs the predicate to have been true at some observed "
+    "point of the instant; at every end of instant no waiter may remain whose predicate on an observed object is true (forwarded signals).")
+_sf("C14", "recording", ["mixed"],
+    ["c14_points_compared", "c14_state_changes_seen", "c14_recording_toggles", "c14_time_averages_compared", "c07_preemption_victims", "c09_ends_while_holding"],
+    {"c14_points_compared": 50000, "c14_state_changes_seen": 5000, "c14_time_averages_compared": 300},
+    "C14 oracle: at every trace record and event boundary the last history sample of a recording object must equal its true state and times "
+    "must not decrease; the time-weighted mean of a single recording window must equal the harness' own integral of the state.")
+
+# ------------------------------------------------------------------ C10: every engine's corpus under sanitizers
+_VG = ["--wrapper", "valgrind -q --error-exitcode=9 --undef-value-errors=yes --track-origins=no --read-var-info=no"]
+PROPS["C10"] = {
+    "engines": ENG,
+    "jobs": (
+        [J(f"sf-{n}-asan", "simfuzz", "asan", k, 250 if n != "growth" else 500, 15000, timeout=180) for n, k in _PROFILE.items()]
+        + [J(f"sf-{n}-rel", "simfuzz", "rel", k, 400, 30000, timeout=60) for n, k in _PROFILE.items()]
+        + [J("ev-asan", "evfuzz", "asan", 0, 300, 10000), J("ev-large-asan", "evfuzz", "asan", 2, 12, 300, timeout=180),
+           J("hh-asan", "hhfuzz", "asan", 5, 400, 10000), J("hh-long-asan", "hhfuzz", "asan", 25, 20, 1000),
+           J("pool-asan", "poolfuzz", "asan", 1, 100, 5000, timeout=120), J("pool-static-asan", "poolfuzz", "asan", 2, 60, 3000),
+           J("stat-order-asan", "statcheck", "asan", 2, 400, 20000, timeout=120), J("stat-hist-asan", "statcheck", "asan", 3, 300, 10000),
+           J("stat-sum-asan", "statcheck", "asan", 0, 200, 5000), J("coro-asan", "corofuzz", "asan", 0, 300, 10000)]
+        + [J("sf-mixed-memcheck", "simfuzz", "rel", 11, 64, 2000, timeout=600, extra=_VG, chunk=4),
+           J("sf-growth-memcheck", "simfuzz", "rel", 10, 32, 1000, timeout=600, extra=_VG, chunk=2),
+           J("stat-order-memcheck", "statcheck", "rel", 2, 32, 1000, timeout=600, extra=_VG, chunk=2),
+           J("ev-memcheck", "evfuzz", "rel", 0, 32, 1000, timeout=600, extra=_VG, chunk=2)]
+    ),
+    "rule": ("the generated programs of every engine (simfuzz scenarios of all 12 profiles incl. the growth profile with 9-40 processes and up "
+             "to 20 plain events waited for, event-queue histories up to 1024+ pending, hashheap histories, pool histories across 64/128 "
+             "chunks, datasets/time series across 1024/2048 samples with copies grown, coroutine schedules) re-run against the ASan+UBSan "
+             "build (fibre hook H1, pool-poison hook H3), the release build (release asserts) and valgrind memcheck (uninitialised values); "
+             "every abnormal end of a child (signal, library assert, sanitizer or memcheck report, hang) is a violation key; the generators' "
+             "validity rules (DESIGN.md appendix A) are the argument that the program was valid; distinct = engine case fingerprints"),
+    "headline": ["events_executed", "processes", "wide_worlds", "max_event_queue_capacity", "max_waiting_list_length", "waiting_list_beyond_initial_capacity",
+                 "reports_printed", "queue_growths", "growths", "expansions", "max_chunks", "copies_mutated", "probed_switches", "plain_events_executed"],
+    "min_observed": {"quick": {"events_executed": 100000, "waiting_list_beyond_initial_capacity": 100, "reports_printed": 200, "copies_mutated": 500, "expansions": 1000}},
+    "assumptions": ["a program generated under the validity rules of DESIGN.md appendix A is a valid program; an abort caused by the harness breaking a "
+                    "precondition is a harness bug, not a finding",
+                    "NDEBUG is defined as in the shipped configuration (debug asserts are not oracles)",
+                    "memcheck runs a small slice (20-50x cost); the mechanism-level coroutine profile is not run under ASan"],
+    "key_prefixes": ["abort:", "asan:", "ubsan:", "crash:", "hang", "exit:", "tsan:", "memcheck:"],
+}
+
 # --------------------------------------------------------------------------
 # Texts for MANIFEST.json (bin/gen_manifest.py)
 MANIFEST_TEXT = {
@@ -301,6 +424,84 @@ MANIFEST_TEXT = {
         "note": "Trusts the harness' own evaluation of the definitions; printed-bar proportionality within one character.",
         "technique": "runtime monitoring: definitional predicate monitors (sortedness, multiset, median weight balance, bin placement, ACF invariance) over generated inputs, parsed report texts, ASan/UBSan",
         "design_ref": "DESIGN.md 4/C18",
+    },
+    "C04": {
+        "level": ("Exploration: thousands of generated tie-heavy scenarios run on the real library as real coroutine processes; the cause-ledger monitor over API-boundary traces + end-of-instant audits of pending events "
+                  "judges every relevant event of every run; held on the scenarios generated (operation and coincidence counts in evidence)."),
+        "note": "Trusts the harness' shadow state (built from return codes and public queries only) and the validity rules of DESIGN.md appendix A.",
+        "technique": "runtime monitoring: cause-ledger monitor over API-boundary traces + end-of-instant audits of pending events; scenario fuzzing with same-instant coincidences; also run under ASan/UBSan",
+        "design_ref": "DESIGN.md 4/C04, 3.1, appendix A",
+    },
+    "C05": {
+        "level": ("Exploration: thousands of generated tie-heavy scenarios run on the real library as real coroutine processes; the shadow-holder (mutual exclusion) monitor from return codes vs public queries "
+                  "judges every relevant event of every run; held on the scenarios generated (operation and coincidence counts in evidence)."),
+        "note": "Trusts the harness' shadow state (built from return codes and public queries only) and the validity rules of DESIGN.md appendix A.",
+        "technique": "runtime monitoring: shadow-holder (mutual exclusion) monitor from return codes vs public queries; scenario fuzzing with same-instant coincidences; also run under ASan/UBSan",
+        "design_ref": "DESIGN.md 4/C05, 3.1, appendix A",
+    },
+    "C06": {
+        "level": ("Exploration: thousands of generated tie-heavy scenarios run on the real library as real coroutine processes; the waiting-list snapshot differencing monitor (grant order) + wake-order monitor "
+                  "judges every relevant event of every run; held on the scenarios generated (operation and coincidence counts in evidence)."),
+        "note": "Trusts the harness' shadow state (built from return codes and public queries only) and the validity rules of DESIGN.md appendix A.",
+        "technique": "runtime monitoring: waiting-list snapshot differencing monitor (grant order) + wake-order monitor; scenario fuzzing with same-instant coincidences; also run under ASan/UBSan",
+        "design_ref": "DESIGN.md 4/C06, 3.1, appendix A",
+    },
+    "C07": {
+        "level": ("Exploration: thousands of generated tie-heavy scenarios run on the real library as real coroutine processes; the conservation / shadow-holdings monitor with preemption-victim detection "
+                  "judges every relevant event of every run; held on the scenarios generated (operation and coincidence counts in evidence)."),
+        "note": "Trusts the harness' shadow state (built from return codes and public queries only) and the validity rules of DESIGN.md appendix A.",
+        "technique": "runtime monitoring: conservation / shadow-holdings monitor with preemption-victim detection; scenario fuzzing with same-instant coincidences; also run under ASan/UBSan",
+        "design_ref": "DESIGN.md 4/C07, 3.1, appendix A",
+    },
+    "C08": {
+        "level": ("Exploration: thousands of generated tie-heavy scenarios run on the real library as real coroutine processes; the end-of-instant lost-wake-up monitor over all waiting lists "
+                  "judges every relevant event of every run; held on the scenarios generated (operation and coincidence counts in evidence)."),
+        "note": "Trusts the harness' shadow state (built from return codes and public queries only) and the validity rules of DESIGN.md appendix A.",
+        "technique": "runtime monitoring: end-of-instant lost-wake-up monitor over all waiting lists; scenario fuzzing with same-instant coincidences; also run under ASan/UBSan",
+        "design_ref": "DESIGN.md 4/C08, 3.1, appendix A",
+    },
+    "C09": {
+        "level": ("Exploration: thousands of generated tie-heavy scenarios run on the real library as real coroutine processes; the end-of-life obligation monitor (waiters, holdings, lists, pending events, exit value) "
+                  "judges every relevant event of every run; held on the scenarios generated (operation and coincidence counts in evidence)."),
+        "note": "Trusts the harness' shadow state (built from return codes and public queries only) and the validity rules of DESIGN.md appendix A.",
+        "technique": "runtime monitoring: end-of-life obligation monitor (waiters, holdings, lists, pending events, exit value); scenario fuzzing with same-instant coincidences; also run under ASan/UBSan",
+        "design_ref": "DESIGN.md 4/C09, 3.1, appendix A",
+    },
+    "C11": {
+        "level": ("Exploration: thousands of generated tie-heavy scenarios run on the real library as real coroutine processes; the level-attribution conservation monitor "
+                  "judges every relevant event of every run; held on the scenarios generated (operation and coincidence counts in evidence)."),
+        "note": "Trusts the harness' shadow state (built from return codes and public queries only) and the validity rules of DESIGN.md appendix A.",
+        "technique": "runtime monitoring: level-attribution conservation monitor; scenario fuzzing with same-instant coincidences; also run under ASan/UBSan",
+        "design_ref": "DESIGN.md 4/C11, 3.1, appendix A",
+    },
+    "C12": {
+        "level": ("Exploration: thousands of generated tie-heavy scenarios run on the real library as real coroutine processes; the sequential-model (exactly-once, order) monitor with unique object ids "
+                  "judges every relevant event of every run; held on the scenarios generated (operation and coincidence counts in evidence)."),
+        "note": "Trusts the harness' shadow state (built from return codes and public queries only) and the validity rules of DESIGN.md appendix A.",
+        "technique": "runtime monitoring: sequential-model (exactly-once, order) monitor with unique object ids; scenario fuzzing with same-instant coincidences; also run under ASan/UBSan",
+        "design_ref": "DESIGN.md 4/C12, 3.1, appendix A",
+    },
+    "C13": {
+        "level": ("Exploration: thousands of generated tie-heavy scenarios run on the real library as real coroutine processes; the expected-wake-set monitor for explicit and forwarded condition signals "
+                  "judges every relevant event of every run; held on the scenarios generated (operation and coincidence counts in evidence)."),
+        "note": "Trusts the harness' shadow state (built from return codes and public queries only) and the validity rules of DESIGN.md appendix A.",
+        "technique": "runtime monitoring: expected-wake-set monitor for explicit and forwarded condition signals; scenario fuzzing with same-instant coincidences; also run under ASan/UBSan",
+        "design_ref": "DESIGN.md 4/C13, 3.1, appendix A",
+    },
+    "C14": {
+        "level": ("Exploration: thousands of generated tie-heavy scenarios run on the real library as real coroutine processes; the history-vs-true-trajectory monitor with independent time integral "
+                  "judges every relevant event of every run; held on the scenarios generated (operation and coincidence counts in evidence)."),
+        "note": "Trusts the harness' shadow state (built from return codes and public queries only) and the validity rules of DESIGN.md appendix A.",
+        "technique": "runtime monitoring: history-vs-true-trajectory monitor with independent time integral; scenario fuzzing with same-instant coincidences; also run under ASan/UBSan",
+        "design_ref": "DESIGN.md 4/C14, 3.1, appendix A",
+    },
+    "C10": {
+        "level": ("Exploration under instrumentation: every engine's generated valid programs re-run under ASan+UBSan (with fibre and "
+                  "pool-poison hooks), in the release configuration for library aborts, and a slice under valgrind memcheck; held on the "
+                  "programs run - a clean sanitizer run is a statement about these executions only."),
+        "note": "Red-zone tools miss non-adjacent and intra-object overflows; validity of generated programs rests on DESIGN.md appendix A.",
+        "technique": "runtime monitoring: AddressSanitizer + UBSan (fibre-annotated), release-assert abort detection, valgrind memcheck over generated valid programs",
+        "design_ref": "DESIGN.md 4/C10",
     },
 }
 NOT_APPLICABLE = {}
